@@ -45,6 +45,15 @@ const c26Height = 100
 
 var c26Base = time.Unix(4000000000, 0)
 
+// c26SetBase is called at the start of every executor (cases run one after the other in a process).
+func c26SetBase(c c26Case) {
+	if c.Past {
+		c26Base = time.Unix(1000000000, 0)
+	} else {
+		c26Base = time.Unix(4000000000, 0)
+	}
+}
+
 type c26Utxo struct {
 	Acc         int    `json:"acc"`   // 0,1
 	Asset       int    `json:"asset"` // 0,1
@@ -71,6 +80,11 @@ type c26Op struct {
 type c26Case struct {
 	Utxos []c26Utxo `json:"utxos"`
 	Ops   []c26Op   `json:"ops"`
+	// Past: the instants of the case (expiries, sweep times) are counted from a base in 2001 instead
+	// of 2096.  The keeper is given every instant it works with, so nothing may change: a
+	// reservation holds its outputs until a sweep with a later instant (or a cancel) releases it,
+	// whatever the wall clock says.
+	Past bool `json:"past,omitempty"`
 }
 
 var (
@@ -226,6 +240,7 @@ func c26GenWith(zero bool) func(t *rapid.T) c26Case {
 			}
 			c.Ops = append(c.Ops, op)
 		}
+		c.Past = rapid.IntRange(0, 2).Draw(t, "past") == 0
 		return c
 	}
 }
@@ -383,6 +398,10 @@ type c26Made struct {
 func c26ExecSeq(c c26Case, x *pbt.Ctx) error {
 	if !c26Valid(c) {
 		return nil
+	}
+	c26SetBase(c)
+	if c.Past {
+		x.Class("instants-in-the-past-of-the-wall-clock")
 	}
 	c.Utxos = append([]c26Utxo(nil), c.Utxos...) // "confirm"/"pool" change Where
 	uk, byID, db := c26SetupDB(c)
@@ -628,6 +647,7 @@ func c26ExecConc(c c26Case, x *pbt.Ctx) error {
 	if !c26Valid(c) {
 		return nil
 	}
+	c26SetBase(c)
 	uk, byID := c26Setup(c)
 	var clock int64
 	events := make([][]*c26Event, c26Workers)
@@ -859,7 +879,7 @@ func c26GenDynamic(t *rapid.T) c26Case {
 }
 
 func TestC26(t *testing.T) {
-	rule := "1..12 outputs over 2 accounts x 2 assets x {no vote, a vote key} (skewed to one class), amounts 1..100 or 2^40..2^57, valid heights {0,99,100,101,200} around the current height 100, each confirmed / unconfirmed / both, a few contract outputs; 1..14 ops Reserve (amount near the total / mature total / fractions of it / 1..120, +-2) / ReserveParticular (also unknown hash) / Cancel / expire(t); non-trivial = the set has a confirmed+unconfirmed duplicate or some call failed; distinct by case"
+	rule := "1..12 outputs over 2 accounts x 2 assets x {no vote, a vote key} (skewed to one class), amounts 1..100 or 2^40..2^57, valid heights {0,99,100,101,200} around the current height 100, each confirmed / unconfirmed / both, a few contract outputs; 1..14 ops Reserve (amount near the total / mature total / fractions of it / 1..120, +-2) / ReserveParticular (also unknown hash) / Cancel / expire(t), instants counted from 2096 or (one case in three) from 2001; non-trivial = the set has a confirmed+unconfirmed duplicate or some call failed; distinct by case"
 	pbt.Run(t, "C26", rule+"; sequential: after every op the keeper's live reservations and reserved index are compared with a set model, every result is judged (see the source for the error precedence)",
 		pbt.Options{Sub: "sequential", Checks: pbt.Per(12000, 900000)}, c26GenWith(false), c26ExecSeq)
 	pbt.Run(t, "C26", rule+"; concurrent: the ops are dealt round-robin to 4 goroutines (a cancel targets one of the goroutine's own reservations); per-result validity, state-independent error rules, final no-overlap/index consistency, and any two reservations sharing an output must be separable by a release (logical-clock intervals); built with -race by the driver",
